@@ -28,7 +28,7 @@ try:
             print(name, "PATCH DOES NOT APPLY", ap.stderr[:200])
             continue
         demo = run(["/venv/bin/python", os.path.join(d, "demo.py")], cwd=WT, env=env)
-        checks = sorted(set([m["property"]] + list(m.get("caught_by") or [])))
+        checks = sorted(set([m["property"]] + list(m.get("caught_by") or []) + [x for x in os.environ.get("RESEED_EXTRA", "").split(",") if x]))
         for c in checks:
             t0 = time.time()
             r = run([os.path.join(V, "check"), c, "--tier", "quick"], cwd=V, env=dict(os.environ, A5_REPO=WT, VERIF_EVIDENCE_DIR="/tmp/verif-seeded-evidence"))
